@@ -268,9 +268,9 @@ class GriffeLoader:
         seen.add(module.path)
         if module.exports is None:
             # Nothing to expand in this module, but its submodules might declare exports.
-            for submodule in module.modules.values():
-                if not submodule.is_alias and submodule.path not in seen:
-                    self.expand_exports(submodule, seen)
+            for submodule in module.members.values():
+                if not submodule.is_alias and submodule.is_module and submodule.path not in seen:
+                    self.expand_exports(submodule, seen)  # type: ignore[arg-type]
             return
 
         expanded = []
@@ -296,9 +296,9 @@ class GriffeLoader:
         module.exports = expanded
 
         # Make sure to expand exports in all modules.
-        for submodule in module.modules.values():
-            if not submodule.is_alias and submodule.path not in seen:
-                self.expand_exports(submodule, seen)
+        for submodule in module.members.values():
+            if not submodule.is_alias and submodule.is_module and submodule.path not in seen:
+                self.expand_exports(submodule, seen)  # type: ignore[arg-type]
 
     def expand_wildcards(
         self,
